@@ -551,6 +551,13 @@ static ASTNode *load_module_internal(const char *module_path, Environment *env, 
             /* without triggering a second parse (fixes nanolang-6h9) */
             return cached_ast;
         }
+
+        /* Cached without an AST: the module is still being loaded (or failed to load).
+         * Importing it again from inside its own imports is a circular import. */
+        if (is_module_cached(module_path)) {
+            fprintf(stderr, "Error: Circular import: module '%s' is imported while it is still being loaded\n", module_path);
+            return NULL;
+        }
         
         /* Mark module as loading to prevent circular imports */
         cache_module(module_path);
@@ -566,10 +573,16 @@ static ASTNode *load_module_internal(const char *module_path, Environment *env, 
     fseek(file, 0, SEEK_END);
     long size = ftell(file);
     fseek(file, 0, SEEK_SET);
+    if (size < 0 || size > 64L * 1024 * 1024) {
+        /* not a regular source file (a directory reports a huge size) */
+        fprintf(stderr, "Error: Module '%s' is not a readable source file\n", module_path);
+        fclose(file);
+        return NULL;
+    }
     
     char *source = malloc(size + 1);
-    fread(source, 1, size, file);
-    source[size] = '\0';
+    size_t bytes_read = fread(source, 1, size, file);
+    source[bytes_read] = '\0';
     fclose(file);
     
     /* Tokenize */
@@ -878,9 +891,9 @@ bool process_imports(ASTNode *program, Environment *env, ModuleList *modules, co
                 module_ast = load_module_internal(module_path, env, true, modules);
             }
             
-            /* NULL return means module was already loaded - this is OK */
-            if (module_ast == NULL && !is_module_cached(module_path)) {
-                /* Only error if module wasn't cached (i.e., actual failure) */
+            /* A loaded module is returned from the cache; NULL means the load failed
+             * (unreadable, lexical/parse/type error, or a circular import) */
+            if (module_ast == NULL) {
                 fprintf(stderr, "Error at line %d, column %d: Failed to load module '%s'\n",
                         item->line, item->column, module_path);
                 free(module_path);
